@@ -50,6 +50,16 @@ def configs(tier, seed):
             # entries with an empty row-id array (accepted by iindex.validate(); the walk guards against them)
             if D >= 2 and (D == 2 or commons == commons_list[0]):
                 out.append(dict(D=D, E=E, cap=1 if D > 2 else cap, commons=list(commons), present=[[d, v] for (d, v) in keys], allow_empty=True))
+    if tier == "quick":
+        # three dimensions with two-row entries (the full D=3 cap=2 family is in the thorough tier): one dimension
+        # has two uncommon categories, the others one, so a later-iterated category meets a partially overlapping base
+        for commons in ((0, 0, 0), (1, 2, 0)):
+            for two in range(3):
+                pres = []
+                for d in range(3):
+                    unc = [v for v in range(E) if v != commons[d]]
+                    pres += [[d, v] for v in (unc if d == two else unc[:1])]
+                out.append(dict(D=3, E=E, cap=2, commons=list(commons), present=pres))
     return out
 
 
